@@ -302,6 +302,13 @@ def gen_sets(rng, maxn, kind):
         comp = [[rng.uniform(-5, 5) for _ in range(dim)] for _ in range(rng.randint(1, maxn))]
         return ref, comp, None
     ref = [[dy(rng) for _ in range(dim)] for _ in range(nr)]
+    if kind in ("integer", "integer-array"):
+        # the computed points have integer coordinates only (Python ints / an integer ndarray): distances to a real-valued
+        # reference set are not integers
+        comp = [[rng.randint(-4, 4) for _ in range(dim)] for _ in range(rng.randint(1, maxn))]
+        if rng.random() < 0.3:
+            ref = [[float(x) for x in c] for c in comp[:max(1, len(comp) - 1)]]      # (nearly) a subset of the reference
+        return ref, comp, None
     if rng.random() < 0.3:
         ref += [list(rng.choice(ref)) for _ in range(rng.randint(1, 2))]     # repeated reference points
     if kind == "dyadic":
@@ -345,14 +352,22 @@ def spec_gd(ref, comp):
     return tot / len(comp)
 
 
+def _computed(comp):
+    """computed set as handed to the indicators: tuples; an all-integer set every other time as an integer ndarray"""
+    if comp and all(isinstance(x, int) for c in comp for x in c) and (len(comp) + sum(comp[0])) % 2 == 0:
+        import numpy as np
+        return np.array(comp, dtype=int)
+    return [tuple(c) for c in comp]
+
+
 def impl_eps(ref, comp):
     from artap.quality_indicator import epsilon_add
-    return float(epsilon_add([tuple(r) for r in ref], [tuple(c) for c in comp]))
+    return float(epsilon_add([tuple(r) for r in ref], _computed(comp)))
 
 
 def impl_gd(ref, comp):
     from artap.quality_indicator import gd
-    return float(gd([tuple(r) for r in ref], [tuple(c) for c in comp]))
+    return float(gd([tuple(r) for r in ref], _computed(comp)))
 
 
 def raises(f, ref, comp):
@@ -420,7 +435,7 @@ def run(ctx):
     n_sets = 2500 if ctx.quick else 40000
     sets = []
     for k in range(n_sets):
-        kind = ["dyadic", "dyadic", "shift", "subset", "random"][k % 5]
+        kind = ["dyadic", "dyadic", "shift", "subset", "random", "integer"][k % 6]
         sets.append((kind,) + gen_sets(rng, 8 if ctx.quick else 20, kind))
     lines = []
     for kind, ref, comp, d in sets:
